@@ -97,8 +97,9 @@ Section Mgm2.
   Let nb := nbrs d n.
   Let mx := d_max d.
 
-  (* _compute_cost: the constraints of the node, no variable cost *)
   Definition cost_at (cs : list constr) (f : Z -> Z) : Z := zsum (map (fun c => ceval c f) cs).
+  (* _compute_cost: the constraints of the node and the cost of its own value (mgm2 own-cost fix) *)
+  Definition local_at (f : Z -> Z) : Z := cost_at (cons_of d n) f + vcost d n (f n).
   Definition view1 (nv : list (Z * Z)) (x : Z) : Z -> Z := fun v => if v =? n then x else aget nv v.
   Definition view2 (nv : list (Z * Z)) (x p xp : Z) : Z -> Z :=
     fun v => if v =? n then x else if v =? p then xp else aget nv v.
@@ -119,12 +120,12 @@ Section Mgm2.
   Definition send_gain2 (s : m2st) : res2 := (s, map (fun t => (t, M2Gain (t_pgain s))) nb, []).
 
   Definition compute_best_value2 (nv : list (Z * Z)) : list Z * Z :=
-    find_arg_optimal mx (fun x => cost_at (cons_of d n) (view1 nv x)) (dom_of d n).
+    find_arg_optimal mx (fun x => local_at (view1 nv x)) (dom_of d n).
 
   (* _compute_offers_to_send: partner's domain outermost *)
   Definition compute_offers (s : m2st) (p : Z) : list (Z * Z * Z) :=
     flat_map (fun dp => flat_map (fun ds =>
-        let c := cost_at (cons_of d n) (view2 (t_nv s) ds p dp) in
+        let c := local_at (view2 (t_nv s) ds p dp) in
         if better mx c (cost2 s) then [(ds, dp, cost2 s - c)] else []) (dom_of d n)) (dom_of d p).
 
   (* _find_best_offer *)
@@ -150,7 +151,7 @@ Section Mgm2.
   Variable enter : Z -> m2st -> res2.          (* _enter_state *)
 
   Definition handle_value_messages (s : m2st) : res2 :=
-    let s1 := set_t_cost s (Some (cost_at (cons_of d n) (view1 (t_nv s) (cur2 s)))) in
+    let s1 := set_t_cost s (Some (local_at (view1 (t_nv s) (cur2 s)))) in
     let '(k, o1) := draw (t_orc s1) in
     let '(partner, o2) := if k <? thr then let '(x, o) := draw o1 in (Some (choose nb x 0), o) else (None, o1) in
     let s2 := set_t_orc (set_t_offerer (set_t_partner s1 partner) (k <? thr)) o2 in
@@ -200,7 +201,9 @@ Section Mgm2.
                 else set_t_committed s false in
       andthen2 (send_gain2 s1) (enter 4).
 
-  Definition maxl (l : list Z) : Z := match l with [] => 0 | x :: r => fold_left Z.max r x end.
+  (* best signed gain of a list: max when minimising, min when maximising *)
+  Definition bestl (l : list Z) : Z :=
+    match l with [] => 0 | x :: r => fold_left (fun a b => if mx then Z.min a b else Z.max a b) r x end.
 
   Definition finish_cycle (s : m2st) : res2 := andthen2 (send_value2 (clear_agent s)) (enter 1).
 
@@ -211,12 +214,12 @@ Section Mgm2.
       | None => (s, [], [EvErr n 1])
       | Some p =>
           let others := map snd (filter (fun q => negb (fst q =? p)) (t_ng s)) in
-          let go := match others with [] => true | _ => maxl others <? t_pgain s end in
+          let go := match others with [] => true | _ => if mx then t_pgain s <? bestl others else bestl others <? t_pgain s end in
           andthen2 (set_t_canmove s go, [(p, M2Go go)], []) (enter 5)
       end
     else
-      let mxn := maxl (map snd (t_ng s)) in
-      let moves := (mxn <? t_pgain s)
+      let mxn := bestl (map snd (t_ng s)) in
+      let moves := (if mx then t_pgain s <? mxn else mxn <? t_pgain s)
                    || ((t_pgain s =? mxn) && forallb (fun q => negb (snd q =? mxn) || (n <? fst q)) (t_ng s)) in
       let r := if moves then value_selection2 s (match t_pval s with Some v => v | None => 0 end) (Some (cost2 s - t_pgain s))
                else ret2 s in
